@@ -5,6 +5,7 @@ import (
 	"errors"
 	"fmt"
 	"strconv"
+	"strings"
 	"time"
 
 	"verifharness/hx"
@@ -26,8 +27,71 @@ type vnTrack struct {
 	hit   bool // Notify(value) was called after creation and before deregistration
 }
 
+// vnNotifier is the notifier under test behind one of several key types (the generic parameter T of Notifier[T]):
+// values are small integers in the op lines and are mapped injectively to keys of the chosen type.
+type vnNotifier interface {
+	Listener(v int) *valuenotifier.Listener
+	Notify(v int)
+}
+
+type vnKey struct {
+	A string
+	B int32
+	C [2]bool
+}
+
+type (
+	vnInt    struct{ n *valuenotifier.Notifier[int] }
+	vnString struct{ n *valuenotifier.Notifier[string] }
+	vnStruct struct{ n *valuenotifier.Notifier[vnKey] }
+	vnAny    struct{ n *valuenotifier.Notifier[any] }
+)
+
+func strKey(v int) string { return fmt.Sprintf("value-%d", v) }
+func structKey(v int) vnKey {
+	return vnKey{A: strings.Repeat("a", v%3), B: int32(v / 3), C: [2]bool{v%2 == 0, v%5 == 0}}
+}
+
+// anyKey: dynamic types mixed in one notifier (1 and "1" and int64(1) are different keys)
+func anyKey(v int) any {
+	switch v % 3 {
+	case 0:
+		return v / 3
+	case 1:
+		return strconv.Itoa(v / 3)
+	}
+
+	return int64(v / 3)
+}
+
+func (x vnInt) Listener(v int) *valuenotifier.Listener    { return x.n.Listener(v) }
+func (x vnInt) Notify(v int)                              { x.n.Notify(v) }
+func (x vnString) Listener(v int) *valuenotifier.Listener { return x.n.Listener(strKey(v)) }
+func (x vnString) Notify(v int)                           { x.n.Notify(strKey(v)) }
+func (x vnStruct) Listener(v int) *valuenotifier.Listener { return x.n.Listener(structKey(v)) }
+func (x vnStruct) Notify(v int)                           { x.n.Notify(structKey(v)) }
+func (x vnAny) Listener(v int) *valuenotifier.Listener    { return x.n.Listener(anyKey(v)) }
+func (x vnAny) Notify(v int)                              { x.n.Notify(anyKey(v)) }
+
+func newVNNotifier(kind string) vnNotifier {
+	switch kind {
+	case "int":
+		return vnInt{valuenotifier.New[int]()}
+	case "string":
+		return vnString{valuenotifier.New[string]()}
+	case "struct":
+		return vnStruct{valuenotifier.New[vnKey]()}
+	case "any":
+		return vnAny{valuenotifier.New[any]()}
+	}
+
+	return nil
+}
+
+var vnKeyTypes = []string{"int", "string", "struct", "any"}
+
 type vnWorld struct {
-	n       *valuenotifier.Notifier[int]
+	n       vnNotifier
 	ls      []*valuenotifier.Listener
 	tr      []*vnTrack
 	gens    map[int]int // listener generations per value (a generation ends with Notify or the last deregistration)
@@ -38,7 +102,7 @@ type vnWorld struct {
 
 func (w *world) vnw() *vnWorld {
 	if w.vn == nil {
-		w.vn = &vnWorld{n: valuenotifier.New[int](), gens: map[int]int{}, live: map[int]int{}}
+		w.vn = &vnWorld{n: newVNNotifier("int"), gens: map[int]int{}, live: map[int]int{}}
 	}
 
 	return w.vn
@@ -85,6 +149,17 @@ func (w *world) execVN(f []string) string {
 	v := w.vnw()
 	if len(f) < 2 {
 		return "bad-op"
+	}
+	if f[0] == "keytype" {
+		// the key type of the case's notifier; only before the first listener exists (the model has no key types)
+		n := newVNNotifier(f[1])
+		if len(f) != 2 || n == nil || len(v.ls) != 0 {
+			return "bad-op"
+		}
+		v.n = n
+		w.count("vn:keytype:" + f[1])
+
+		return "ok"
 	}
 	x, err := strconv.Atoi(f[1])
 	if err != nil || x < 0 {
@@ -221,6 +296,9 @@ var vnCorpus = [][]string{
 func genVN(rng *hx.Rng, n int) []string {
 	var tr []*vnTrack
 	var ops []string
+	if kt := hx.Pick(rng, vnKeyTypes); kt != "int" {
+		ops = append(ops, "vn keytype "+kt)
+	}
 	for i := 0; i < n; i++ {
 		switch x := rng.Intn(100); {
 		case x < 32 || len(tr) == 0:
